@@ -3,13 +3,16 @@ package checks
 import (
 	"context"
 	"crypto/sha256"
+	"encoding/binary"
 	"fmt"
 	"github.com/bartossh/Computantis/src/accountant"
+	"github.com/bartossh/Computantis/src/transformers"
 	"math/rand"
 	"sort"
 	"strconv"
 	"strings"
 	"time"
+	"verifharness/svc"
 
 	"github.com/bartossh/Computantis/src/gossip"
 	"github.com/bartossh/Computantis/src/protobufcompiled"
@@ -710,7 +713,75 @@ func c12ListLengths(w *core.WorkerCtx, rng *rand.Rand) {
 	}
 }
 
+// c12AnnounceCollision: the adversary is a registered node too. It announces itself (validly signed with its own key)
+// under the URL of an honest peer of the relay, then hands the relay an item whose list carries only its own valid
+// entry. Its announcement may add the adversary to the relay's peer table; it must not take the honest peer out of it,
+// and the item must be forwarded to every honest peer that no valid entry covers.
+func c12AnnounceCollision(w *core.WorkerCtx) {
+	r := w.R
+	rig, err := svc.New(4, 60, 2048)
+	if err != nil {
+		r.Inconc("cannot build the node: " + err.Error())
+		return
+	}
+	defer rig.Close()
+	ctx := context.Background()
+	conn := func(owner *ledger.Actor, url string) *protobufcompiled.ConnectionData {
+		at := uint64(time.Now().UnixNano())
+		data := append([]byte(owner.Addr), []byte(url)...)
+		data = binary.LittleEndian.AppendUint64(data, at)
+		d, s := owner.W.Sign(data)
+		return &protobufcompiled.ConnectionData{PublicAddress: owner.Addr, Url: url, CreatedAt: at, Digest: d[:], Signature: s}
+	}
+	before := rig.G.Peers()
+	for round := 0; round < w.Pick(6, 30); round++ {
+		adv := ledger.NewActor("adversary")
+		victim := round % len(rig.Peers)
+		url := "peer-" + rig.Peers[victim].Name
+		w.Mark("announce collision round %d: adversary announces under %s", round, url)
+		var aerr error
+		if round%2 == 0 {
+			_, aerr = rig.Gossip.Announce(ctx, conn(adv, url))
+		} else {
+			_, aerr = rig.Gossip.Discover(ctx, conn(adv, url))
+		}
+		after := rig.G.Peers()
+		for a, u := range before {
+			if after[a] != u {
+				r.Violate("C12", "honest-peer-evicted-by-announcement", fmt.Sprintf("an announcement validly signed by another wallet under the URL %s (answer: %v) took the honest peer %s out of the relay's peer table", url, aerr, u), nil)
+			}
+		}
+		// an item with the adversary's own valid entry only
+		tr := ledger.ForgeTrx(rig.Users[1], rig.Users[2].Addr, fmt.Sprintf("announce collision %d", round), []byte("contract"), spice.Melange{}, time.Now().Add(-time.Minute))
+		pt, err := transformers.TrxToProtoTrx(tr)
+		if err != nil {
+			continue
+		}
+		d, sg := adv.W.Sign(append([]byte(adv.Addr), tr.Hash[:]...))
+		rig.Gossip.GossipTrx(ctx, &protobufcompiled.TrxMsgGossip{Trx: pt, Gossipers: []*protobufcompiled.Gossiper{{Address: adv.Addr, Digest: d[:], Signature: sg}}})
+		time.Sleep(2 * time.Millisecond) // the forwards run in goroutines
+		for pi, p := range rig.Peers {
+			got := 0
+			for k := 0; k < 200 && got == 0; k++ {
+				if got = p.TrxCopies(pt.Hash); got == 0 {
+					time.Sleep(time.Millisecond)
+				}
+			}
+			r.Eval(1)
+			if got == 0 {
+				r.Violate("C12", "suppressed/announcement-under-an-honest-url", fmt.Sprintf("after an adversary announced itself under the URL of honest peer %d, an item listing only the adversary's own entry was not forwarded to honest peer %d", victim, pi), nil)
+			}
+		}
+		r.Count("c12_announce_collision_rounds", 1)
+		r.Nontriv(fmt.Sprintf("announce-collision/rpc%d/victim%d/answer-ok=%v", round%2, victim, aerr == nil))
+		rig.Cache.RemoveAwaitedTransaction(tr.Hash, rig.Users[2].Addr)
+	}
+}
+
 func c12Worker(w *core.WorkerCtx) {
+	if w.Batch == 2 || (w.Thorough() && w.Batch%4 == 2) {
+		c12AnnounceCollision(w)
+	}
 	if w.Batch == 1 || w.Thorough() {
 		c12ListLengths(w, core.Rand(w.Seed, "C12len", w.Batch))
 	}
